@@ -20,6 +20,10 @@
 
 
 
+#include <stdio.h>
+
+
+
 #define SNOOPY_UTIL_FILE__SMALL_FILE_MAX_SIZE   10240   // 10 KB
 #define SNOOPY_UTIL_FILE__SMALL_FILE_FREAD_SIZE 1024   // Must divide the SMALL_FILX_MAX_SIZE, cannot be greater than 1024
 #define SNOOPY_UTIL_FILE__ERROR_MSG_MAX_SIZE    1024
@@ -27,3 +31,4 @@
 
 
 int snoopy_util_file_getSmallTextFileContent (const char * const filePath, char ** contentPtr);
+int snoopy_util_file_writeLineToCallerStream (FILE * const stream, char const * const line);
